@@ -17,6 +17,8 @@ PROP = "C07"
 U = 12345
 ALPHABET = ["only_root", "only_uid:0", "only_uid:%d" % U, "exclude_uid:0", "exclude_uid:%d" % U, "only_tty",
             "exclude_spawns_of:vdrive", "exclude_spawns_of:nope", "noop", "nosuch", "nosuch:arg", "", "only_uid:", ":x", "exclude_uid", "only_uid"]
+# first values of a filter_chain option that is given twice (empty, quoted empty, passing, dropping for every uid used, unknown)
+FIRST_VALUES = ['', '""', '"noop"', '"only_uid:99999"', '"exclude_uid:0,%d"' % U, '"nosuch"', '";"', '"only_root;only_uid:%d"' % U]
 KNOWN = {"only_root", "only_uid", "exclude_uid", "only_tty", "exclude_spawns_of", "noop"}
 
 
@@ -116,11 +118,18 @@ def make_cases(tr):
             continue
         cid += 1
         cases.append(dict(id=cid, elems=text.split(";"), text=text, uid=rng.choice([0, U]), tty=rng.choice([True, False]), cls="random"))
+    # the option given twice: only the last value counts (etc/snoopy.ini.in, DESIGN A.1 rule 7), whatever the first one was
+    for _ in range(600 if tr == "quick" else 6000):
+        elems = [rng.choice(ALPHABET) for _ in range(rng.randrange(0, 4))]
+        cid += 1
+        cases.append(dict(id=cid, elems=elems, text=";".join(elems), uid=rng.choice([0, U]), tty=rng.choice([True, False]), cls="twice",
+                          pre=rng.choice(FIRST_VALUES)))
     return cases
 
 
 def script_fn(c, B, s):
-    conf = ("[snoopy]\nmessage_format = \"M%d\"\noutput = file:%s\nfilter_chain=\"%s\"\n" % (c["id"], B.logf, c["text"])).encode()
+    pre = "filter_chain=%s\n" % c["pre"] if "pre" in c else ""
+    conf = ("[snoopy]\n%smessage_format = \"M%d\"\noutput = file:%s\nfilter_chain=\"%s\"\n" % (pre, c["id"], B.logf, c["text"])).encode()
     new = B.begin_case(s, c, key=c["uid"])          # cases with the same uid share a process in groups of 1..8
     if new and c["uid"]:
         s.raw("uid %d %d %d" % (c["uid"], c["uid"], c["uid"]))
@@ -132,6 +141,8 @@ def script_fn(c, B, s):
 
 def check_fn(c, evs, B):
     wit = dict(chain=c["text"], uid=c["uid"], stdin_tty=c["tty"])
+    if "pre" in c:
+        wit["first_value_of_the_option"] = c["pre"]
     ch = events_of(evs, "CHILD")
     if ch and ch[0]["signal"]:
         B.F.violation("C07:caller-killed:sig%d" % ch[0]["signal"], "caller died evaluating chain %r" % c["text"][:100], wit)
@@ -192,8 +203,8 @@ def main():
         raise Harness("did not observe both decisions: %s" % tot)
     rc = F.report()
     write_evidence(PROP, "exploration", tr, dict(
-        evaluations=len(cases), distinct_nontrivial=len({(c["text"], c["uid"], c["tty"]) for c in cases}),
-        rule="all chains of <=%d elements over the %d-spec alphabet x uid{0,%d} x stdin{pty,pipe} + random chains of 4..20 elements with uid lists, trailing/leading ';'; distinct = (chain text, uid, stdin)" % (3 if tr == "quick" else 4, len(ALPHABET), U),
+        evaluations=len(cases), distinct_nontrivial=len({(c["text"], c["uid"], c["tty"], c.get("pre")) for c in cases}),
+        rule="all chains of <=%d elements over the %d-spec alphabet x uid{0,%d} x stdin{pty,pipe} + random chains of 4..20 elements with uid lists, trailing/leading ';' + chains of 0..3 elements whose option line is preceded by an earlier filter_chain line (%d first values: empty, passing, dropping, unknown); distinct = (chain text, uid, stdin, first value)" % (3 if tr == "quick" else 4, len(ALPHABET), U, len(FIRST_VALUES)),
         exhaustive_small_chains=True,
         samples=[dict(chain=c["text"][:100], uid=c["uid"], tty=c["tty"]) for c in cases[:2] + cases[5000:5003] + cases[-2:]],
         monitor_events=tot, alphabet=ALPHABET, build=dict(variant="plain", treehash=bld.treehash), violation_keys=sorted(F.viol)),
